@@ -9,6 +9,7 @@ mod state;
 mod twins;
 mod fit;
 mod fault;
+mod stats;
 
 use common::Out;
 use std::io::Write;
@@ -57,6 +58,7 @@ fn main() {
         "par" => twins::stream_par(&mut out, seed, thorough),
         "fit" => fit::stream(&mut out, seed, thorough),
         "fault" => fault::stream(&mut out, seed, thorough),
+        "stats" => stats::stream(&mut out, seed, thorough),
         _ => {
             eprintln!("unknown stream {}", stream);
             std::process::exit(2);
